@@ -61,6 +61,8 @@ Definition run_impl_head (m : meth) (args : list val) : outcome :=
   | MDelete, [VStr s; VInt b; VInt t] => impl_delete_head s b t
   | MParseInt, [VStr s] => impl_parse_int_head s
   | MParseBigint, [VStr s] => impl_parse_bigint_head s
+  | MParseIntRadix, [VStr s; VInt r] => impl_parse_int_radix_head s r
+  | MParseBigintRadix, [VStr s; VInt r] => impl_parse_bigint_radix_head s r
   | MToInt, [x] => impl_to_int_head x
   | MToBigint, [x] => impl_to_bigint_head x
   | MToByte, [x] => impl_to_byte_head x
